@@ -5,7 +5,7 @@ import os
 
 VERIF = os.path.dirname(os.path.dirname(os.path.abspath(__file__)))
 TECH = "contract-based deductive verification (Verus/Z3) of the real functions, extracted mechanically on every run"
-TRUST = ("Trusted: Verus 0.2026.09.13 / Z3 / rustc; extraction rules R1-R7 (tools/extract.py, fidelity self-check every run); the spec "
+TRUST = ("Trusted: Verus 0.2026.09.13 / Z3 / rustc; extraction rules R1-R12 (tools/extract.py, fidelity self-check every run); the spec "
          "library definitions in spec/*.rs; assume_specification for 7 core integer methods and 3 external_body contracts (R7), each "
          "backed by a complete Kani harness (thorough tier); type-invariant meta-argument for private-field types. ")
 
